@@ -8,7 +8,7 @@ sys.path.insert(0, os.path.join(V, "lib"))
 import mirsmt, miragg, mirblocks, mirflow, mirpaths, mirload, mirquery
 src = sys.argv[1] if len(sys.argv) > 1 else "/tmp/selftest_src"
 if len(sys.argv) <= 1:
-    subprocess.check_call(["rsync", "-a", "--delete", "--exclude", "/target", "--exclude", ".git", "/repo/", src + "/"])
+    subprocess.check_call(["rsync", "-rlpc", "--delete", "--exclude", "/target", "--exclude", ".git", "/repo/", src + "/"])
 a = miragg.Agg("", src, mirsmt.Obligations())
 bad = 0
 recipes = []
@@ -16,7 +16,7 @@ for mod in (mirblocks, mirflow, mirpaths, mirload, mirquery):
     for name, f in inspect.getmembers(mod, inspect.isfunction):
         if name.startswith("replay_") and f.__module__ == mod.__name__:
             recipes.append((mod.__name__ + "." + name, f))
-for name in ("replay_in_empty", "replay_variable_twice", "replay_binary_not", "replay_rules_file", "replay_when_block"):
+for name in ("replay_in_empty", "replay_variable_twice", "replay_binary_not", "replay_rules_file", "replay_when_block", "replay_rule_when"):
     recipes.append(("miragg.Agg." + name, lambda a_, n=name: getattr(a_, n)({}) if n != "replay_data_inputs" else None))
 for name, f in recipes:
     try:
